@@ -85,10 +85,11 @@ def _k(t):
 
 class Desc:
     """decomposition of a loop iterator"""
-    __slots__ = ("colls", "range", "take", "enum", "other", "it", "rev")
+    __slots__ = ("colls", "range", "take", "enum", "other", "it", "rev", "maps")
 
     def __init__(self, it):
         self.colls = []
+        self.maps = []     # every `map(..)` layer met: a collected vector of freshly created objects is addressed as that term
         self.range = None
         self.take = None
         self.enum = False
@@ -115,6 +116,9 @@ class Desc:
             self.take = t[2]
             self._go(t[1])
         elif tag == "map":
+            self.maps.append(t)
+            self._go(t[1])
+        elif tag == "gen" and len(t) == 2:
             self._go(t[1])
         elif tag == "rev":
             if self.take is not None or self.enum:
@@ -124,9 +128,10 @@ class Desc:
         elif tag in ("skip", "chunks", "chain", "step_by", "windows", "elem", "index", "lv"):
             self.other = True
         elif circ.range_expr(t) is not None:
-            if self.range is not None:
-                self.other = True
-            self.range = circ.range_expr(t)
+            r = circ.range_expr(t)
+            if self.range is not None and (_k(self.range[0]), _k(self.range[1])) != (_k(r[0]), _k(r[1])):
+                self.other = True   # a zip of two different ranges
+            self.range = r
         elif tag is None:
             self.other = True
         else:
@@ -182,9 +187,14 @@ class Nest:
         """variable of the nest loop that iterates `it` (a range, or a collection streamed by that loop — alone or zipped with
         others: the loop's own domain applies, e.g. the common length of a zip); None when no loop of this nest does"""
         base = strip_adaptors(it)
+        gen = it[1] if (isinstance(it, tuple) and len(it) == 2 and it[0] == "gen") else None
         for k in range(len(self.loops) - 1, -1, -1):
             d = self.desc[k]
             if self.doms[k] is None:
+                continue
+            if gen is not None:
+                if gen in d.maps:
+                    return self.var(k)
                 continue
             if self.loops[k] == it or d.it == it or (d.range is None and base in d.colls and _takes(it) == d.take):
                 return self.var(k)
@@ -254,6 +264,9 @@ def _canon1(nest, t):
         if dm is None:
             return ("elem", _canon(nest, inner)) if isinstance(inner, tuple) else t
         v = nest.var_for(inner) or ("lv", dm[0], dm[1], 0)
+        if isinstance(inner, tuple) and len(inner) == 2 and inner[0] == "gen":
+            # element of a collected vector of freshly created objects: the vector is the map term itself, as in `v[i]`
+            return ("idx", _canon(nest, inner[1]), v)
         if d.range is not None:
             return v
         if len(d.colls) == 1:
@@ -263,8 +276,8 @@ def _canon1(nest, t):
     if tag == "index" and len(t) == 2:
         d = Desc(t[1])
         dm = d.domain()
-        if dm is None or d.range is not None:
-            return t
+        if dm is None or (d.range is not None and dm[0] != 0):
+            return t   # the position in a range that does not start at 0 is not the range's value
         return nest.var_for(t[1]) or ("lv", dm[0], dm[1], 0)
     if tag in ("c", "cs", "param", "cparam", "cfn", "cdef", "unit", "unk", "lv", "sym"):
         return t
